@@ -243,6 +243,13 @@ def _ev_arr(t, env):
         return _Arr(list(range(*ar)))
     if a.op == "pow" and all(isinstance(x, int) for x in ar):
         return ar[0] ** ar[1]
+    if a.op == "repeat_interleave" and isinstance(ar[0], _Arr) and isinstance(ar[1], int) and _depth(ar[0].data) == 1:
+        return _Arr([x for x in ar[0].data for _ in range(ar[1])])
+    if a.op == "repeat" and isinstance(ar[0], _Arr) and _depth(ar[0].data) == 1 and isinstance(a.args[1], tuple) and len(a.args[1]) == 1:
+        n_ = env.get(a.args[1][0]) if not str(a.args[1][0]).lstrip("-").isdigit() else int(a.args[1][0])
+        if not isinstance(n_, int):
+            return None
+        return _Arr(list(ar[0].data) * n_)  # tiled: x0 x1 .. x0 x1 ..
     f2 = {"lshift": lambda x, y: x << y, "rshift": lambda x, y: x >> y, "bitand": lambda x, y: x & y, "bitor": lambda x, y: x | y,
           "cmp_Gt": lambda x, y: x > y, "cmp_Lt": lambda x, y: x < y, "cmp_GtE": lambda x, y: x >= y, "cmp_LtE": lambda x, y: x <= y,
           "cmp_Eq": lambda x, y: x == y, "cmp_NotEq": lambda x, y: x != y, "mod": lambda x, y: x % y, "floordiv": lambda x, y: x // y}
